@@ -218,3 +218,28 @@ def gen_state(rng, tree, date, gen):
     if st["tag"] == "final":
         st["num"] = 0           # a final release has no release number
     return st
+
+
+# the recognisers of the README part table, written out independently
+PART_RE = {
+    "YYYY": r"[1-9][0-9]{3}", "YY": r"[1-9][0-9]?", "0Y": r"[0-9]{2}", "GGGG": r"[1-9][0-9]{3}", "GG": r"[1-9][0-9]?", "0G": r"[0-9]{2}",
+    "Q": r"[1-4]", "MM": r"(?:1[0-2]|[1-9])", "0M": r"(?:1[0-2]|0[1-9])", "DD": r"(?:3[01]|[12][0-9]|[1-9])", "0D": r"(?:3[01]|[12][0-9]|0[1-9])",
+    "JJJ": r"(?:36[0-6]|3[0-5][0-9]|[12][0-9][0-9]|[1-9][0-9]|[1-9])", "00J": r"(?:36[0-6]|3[0-5][0-9]|[12][0-9][0-9]|0[1-9][0-9]|00[1-9])",
+    "WW": r"(?:5[0-2]|[1-4][0-9]|[0-9])", "0W": r"(?:5[0-2]|[0-4][0-9])", "UU": r"(?:5[0-2]|[1-4][0-9]|[0-9])", "0U": r"(?:5[0-2]|[0-4][0-9])",
+    "VV": r"(?:5[0-3]|[1-4][0-9]|[1-9])", "0V": r"(?:5[0-3]|[1-4][0-9]|0[1-9])",
+    "MAJOR": r"[0-9]+", "MINOR": r"[0-9]+", "PATCH": r"[0-9]+", "BUILD": r"[0-9]+", "BLD": r"[1-9][0-9]*",
+    "TAG": r"(?:preview|final|dev|alpha|beta|post|rc)", "PYTAG": r"(?:dev|post|rc|a|b)", "NUM": r"[0-9]+", "INC0": r"[0-9]+", "INC1": r"[1-9][0-9]*",
+}
+
+
+def ref_regex(tree):
+    import re
+    out = ""
+    for kind, x in tree:
+        if kind == "lit":
+            out += re.escape(x)
+        elif kind == "part":
+            out += "(?:" + PART_RE[x] + ")"
+        else:
+            out += "(?:" + ref_regex(x) + ")?"
+    return out
